@@ -4,6 +4,7 @@ import (
 	"fmt"
 	"go/token"
 	"go/types"
+	"strings"
 
 	"golang.org/x/tools/go/ssa"
 )
@@ -18,6 +19,7 @@ func init() {
 	reg("C09", "C09.R4", "E7", "sibling onError closures: unconditional Fail loop over all events; IsDeadQueueAvailable wired from the Router; fatal only without dead queue", 9, ruleOnErrorSiblings)
 	reg("C09", "C09.R5", "E2", "Router.Fail forwards the event to the dead queue under the availability test and does nothing else", 1, ruleRouterFail)
 	reg("C09", "C09.R7", "E6", "the dead queue a pipeline is given is its own: per-pipeline plugin settings are never stored through the registry's shared entry", 2, ruleRegistryEntriesShared)
+	reg("C09", "C09.R8", "E6", "an error is passed on with the status code of the call that failed (the retry / final decision reads that code)", 2, ruleStatusOfFailingCall)
 	reg("C09", "C09.R6", "E2", "send-before-commit in the worker (same rule as C01.R4)", 1, ruleSendBeforeCommit)
 }
 
@@ -457,4 +459,43 @@ func ruleRegistryEntriesShared(c *Ctx, r *Rule) {
 	}
 	r.Inst(1)
 	r.Ob(nGet >= 2 && nStore >= 1, "registry|scope", token.NoPos, fmt.Sprintf("%d registry look-ups, %d stores into a PluginStaticInfo examined", nGet, nStore))
+}
+
+// ruleStatusOfFailingCall: the send functions classify a failure by its HTTP status (400 / 413 are final,
+// everything else is retried). Where a function passes on an (status, error) pair, the status must be the
+// one that came with that error: an error of one request returned with the status of another turns a
+// retryable failure into "non-retryable", and the batch is committed without retry, callback or dead queue.
+func ruleStatusOfFailingCall(c *Ctx, r *Rule) {
+	n := 0
+	for _, fn := range c.ModFuncs {
+		if !strings.HasPrefix(c.pkgOf(fn), "plugin/output/") || fn.Signature.Results().Len() != 2 {
+			continue
+		}
+		res := fn.Signature.Results()
+		if !isIntegerType(res.At(0).Type()) || !isErrorT(res.At(1).Type()) {
+			continue
+		}
+		for i, ret := range returnsOf(fn) {
+			rr := retResults(ret)
+			e, okE := stripConv(rr[1]).(*ssa.Extract)
+			if !okE {
+				continue
+			}
+			call, isCall := e.Tuple.(*ssa.Call)
+			if !isCall || call.Type().(*types.Tuple).Len() != 2 {
+				continue
+			}
+			n++
+			r.Inst(1)
+			ok := false
+			switch s := stripConv(rr[0]).(type) {
+			case *ssa.Extract:
+				ok = s.Tuple == e.Tuple
+			case *ssa.Const:
+				ok = true // a fixed status chosen by this function
+			}
+			r.Ob(ok, fmt.Sprintf("%s|return#%d|status-of-the-failing-call", c.fnName(fn), i), ret.Pos(), "an error passed on from "+c.path(call)+" is returned with the status code of that same call (found "+c.path(rr[0])+")")
+		}
+	}
+	r.Ob(n >= 2, "plugin/output|status-error-pairs", token.NoPos, fmt.Sprintf("%d returns passing on a (status, error) pair examined", n))
 }
